@@ -9,6 +9,12 @@ import Decaf.Model.Field
 
 namespace Model
 
+/-- LSB-first square-and-multiply over a bit list (same loop as `pow_le_limbs`; repeated here because this file
+does not import the square-root model) -/
+def powLeLimbsAux' (m : Nat) : List Bool → Nat → Nat → Nat
+  | [], acc, _ => acc
+  | b :: bs, acc, ins => powLeLimbsAux' m bs (if b then fmul m acc ins else acc) (fmul m ins ins)
+
 structure FP where
   m : Nat
   nl : Nat
@@ -118,6 +124,29 @@ def fromStr (s : List Char) : Option Nat :=
 
 /-- `Display`: decimal without leading zeros; zero prints as the empty string -/
 def display (x : Nat) : String := if x == 0 then "" else toString x
+
+/-- `inverse`: absent for zero -/
+def inverse (x : Nat) : Option Nat := if x == 0 then none else some (finv F.m x)
+
+/-- `Fq::power` (fields/fq.rs, after the repair): LSB-first square-and-multiply over every limb -/
+def power (x : Nat) (limbs : List Nat) : Nat := powLeLimbsAux' F.m (limbsBits limbs) (1 % F.m) x
+
+/-- Montgomery form (radix 2^(64·nl)) of a canonical value, and back -/
+def toMont (x : Nat) : Nat := (x * 2 ^ (64 * F.nl)) % F.m
+def fromMont (v : Nat) : Nat := fmul F.m (v % F.m) (finv F.m (2 ^ (64 * F.nl) % F.m))
+
+/-- `ConditionallySelectable` (fq/u64/wrapper.rs, fq/u32/wrapper.rs): limb-wise select on the Montgomery limbs
+(of width `w` = 64 resp. 32 bits), then reinterpretation of the limbs as a Montgomery-form element -/
+def selectLimbs (w : Nat) (a b : Nat) (c : Bool) : Nat :=
+  let n := 64 * F.nl / w
+  let al := toLimbs w (F.toMont a) n
+  let bl := toLimbs w (F.toMont b) n
+  F.fromMont (Lit.ofLimbs w (List.zipWith (fun x y => if c then y else x) al bl))
+
+/-- `ConstantTimeEq`: equality of the Montgomery limbs -/
+def ctEq (w : Nat) (a b : Nat) : Bool :=
+  let n := 64 * F.nl / w
+  toLimbs w (F.toMont a) n == toLimbs w (F.toMont b) n
 
 def sum (xs : List Nat) : Nat := xs.foldl (fadd F.m) 0
 def product (xs : List Nat) : Nat := xs.foldl (fmul F.m) (1 % F.m)
